@@ -161,6 +161,14 @@ def exec_c14(case):
 
 def gen_c13(rng, profile):
     from . import family as F
+    if profile.get("batch") == "conc_enum":
+        # preemption-bound-1 enumeration of two first dialect calls on one class
+        prof = dict(profile)
+        prof["force"] = dict(profile.get("force") or {}, dialect_support=True,
+                             p_dialect_support=0.9, distinct_dialects=True, cfg_dialect=False)
+        case = gen_c14(rng, prof)
+        case["prop"] = "C13"
+        return case
     kn = gen.gen_knobs(rng, profile)
     kn.update({"dialect_support": True, "p_dialect_support": 0.85, "cfg_dialect": False,
                "threads": profile.get("batch") == "threads", "aborts": False, "codecs": False,
